@@ -174,9 +174,23 @@ def meta_list(meta):
 
 
 def clock_info(meta):
+    """duration sane; the recording timestamp is a naive UTC time (as everything else in the package: S3 day folders,
+    lookup windows) close to now - checked right after the save, also in an interpreter whose local time is not UTC"""
+    import datetime as _dt
     d = meta.get(TapeRecorder.DURATION)
+    ra = meta.get(TapeRecorder.RECORDED_AT)
+    utc_ok = False
+    if isinstance(ra, str):
+        for fmt in ("%Y-%m-%d %H:%M:%S.%f", "%Y-%m-%d %H:%M:%S"):
+            try:
+                t = _dt.datetime.strptime(ra, fmt)
+            except ValueError:
+                continue
+            now = _dt.datetime.now(_dt.timezone.utc).replace(tzinfo=None)
+            utc_ok = -120.0 <= (t - now).total_seconds() <= 5.0
+            break
     return {"duration_ok": isinstance(d, float) and 0.0 <= d < 3600.0,
-            "recorded_at_ok": isinstance(meta.get(TapeRecorder.RECORDED_AT), str)}
+            "recorded_at_ok": isinstance(ra, str), "recorded_at_utc_ok": utc_ok}
 
 
 def datum_of(key, value):
@@ -193,6 +207,7 @@ def datum_of(key, value):
             return {"d": "opexn", "ty": exn_name(value['args'][0])[5:] if exn_name(value['args'][0]).startswith("user:")
                     else type(value['args'][0]).__name__}
         if len(value['args']) == 1 and isinstance(value['args'][0], dict) and set(value['args'][0]) == {'error_type', 'error_repr'} \
+                and isinstance(value['args'][0]['error_type'], type) \
                 and key.startswith('output: ' + TapeRecorder.OPERATION_OUTPUT_ALIAS):
             et = value['args'][0]['error_type']     # _serializable_exception_form of an exception that cannot be encoded
             return {"d": "opexn", "ty": "AssertionError" if et is _UserAssertion else et.__name__}
